@@ -122,7 +122,7 @@ pub fn meta(prop: Prop) -> Meta {
             real: &["all 83 public parse_* functions (allparsers.rs)", "TlsRecordsParser", "tls_state_transition", "gen_* serializers", "Debug / Display of every returned value"],
             stub: &["all stubs of the other worlds", "counting GlobalAlloc (per-thread, per-call peak)", "watchdog thread (real clock used only to declare a hang)"],
             assumptions: &[
-                "heap bound per call: peak additional live heap <= A*len + 4 KiB with A = 4 x the largest returned element type (computed from the real types at run time), plus 3 x MAX_RECORD_DATA for TlsRecordsParser calls",
+                "heap bound per call: peak additional live heap <= A*len + 64 KiB with A = 4 x the largest returned element type (computed from the real types at run time), plus 3 x MAX_RECORD_DATA for TlsRecordsParser calls",
                 "inputs are corruptions of well-formed traffic and injected garbage up to ~70 000 bytes (streams up to 11 MiB in the oversize scenario); this samples, it does not enumerate all byte strings",
                 "allocation failure is not injected (it aborts rather than unwinds and the crate has no fallible-allocation path)",
             ],
